@@ -154,7 +154,11 @@ func (w *World) verifyFunc(fn *ssa.Function, c *FuncContract) (rep *FuncReport) 
 			st2 := final.clone()
 			e.specOblige(st2, "post", cl.E, penv, cl.Src, cl.Props)
 		}
-		e.frameObligations(fr, final, c, penv)
+		if c.NoFrame {
+			e.note("frame (modifies clause) of %s is NOT verified (noframe): callers assume it", e.fnName)
+		} else {
+			e.frameObligations(fr, final, c, penv)
+		}
 	}
 	rep.Status = "ok"
 	rep.Obls = e.obls
@@ -392,6 +396,9 @@ func cmdCheck(args []string) int {
 		fnames = append(fnames, r.Key)
 		for _, n := range r.Notes {
 			addA(r.Key + ": " + n)
+			if strings.Contains(n, "havoc-all") {
+				fmt.Printf("NOTE %s: %s\n", r.Key, n)
+			}
 		}
 		for _, o := range r.Obls {
 			if *prop != "" && len(o.Props) > 0 && !hasProp(o.Props, *prop) {
